@@ -102,8 +102,13 @@ def search_case(k, rng, nq):
     nwords = rng.randint(2, 7)
     words = []
     synpos = {}
+    # identifiers are written 'lexicon|id'; in some worlds L and M use the very same ids
+    # (two lexicons with shared ids in one scope: every result is still one entity)
+    shared = rng.random() < 0.35
     for j in range(nwords):
-        lex = rng.choice(['L', 'L', 'L', 'M'])
+        lex = rng.choice(['L', 'L', 'L', 'M'] if not shared else ['L', 'M'])
+        pfx = f'{lex}|' + ('' if shared else f'{lex}-')
+        jj = j // 2 if shared else j
         pos = rng.choice(['n', 'n', 'v', 'a', 's'])
         lemma = rng.choice(FORMS)
         forms = []
@@ -112,12 +117,24 @@ def search_case(k, rng, nq):
                 forms.append(f)
         senses = []
         for t in range(rng.choice([0, 1, 1, 2])):
-            ssid = f'{lex}-ss{rng.randint(1, 4)}'
+            ssid = f'{pfx}ss{rng.randint(1, 4)}'
             if ssid not in [x[1] for x in senses]:
-                senses.append([f'{lex}-w{j}-{t}', ssid])
+                senses.append([f'{pfx}w{jj}-{t}', ssid])
                 synpos.setdefault(ssid, rng.choice([pos, pos, 'n', 's']))
-        words.append([f'{lex}-w{j}', lex, pos, lemma, forms, senses])
-    scope = rng.choice([['L'], ['L'], ['L', 'M'], ['M']])
+        if any(w_[0] == f'{pfx}w{jj}' for w_ in words):
+            continue
+        words.append([f'{pfx}w{jj}', lex, pos, lemma, forms, senses])
+    if shared:
+        # M repeats most words of L: same id, part of speech and lemma (another version, say)
+        for w in [w for w in words if w[1] == 'L']:
+            if rng.random() < 0.7:
+                mid = 'M|' + w[0].split('|', 1)[1]
+                words[:] = [x for x in words if x[0] != mid]
+                ms = [['M|' + a.split('|', 1)[1], 'M|' + b.split('|', 1)[1]] for a, b in w[5]]
+                for _, b in ms:
+                    synpos.setdefault(b, synpos.get('L|' + b.split('|', 1)[1], w[2]))
+                words.append([mid, 'M', w[2], w[3], list(w[4][:1]), ms])
+    scope = rng.choice([['L'], ['L'], ['L', 'M'], ['M']] if not shared else [['L', 'M'], ['L', 'M'], ['L']])
     # an extension X of L that adds further forms to L's entries (X is then always
     # selected together with L: forms of an unselected extension are C04's finding)
     extforms = {}
@@ -132,8 +149,9 @@ def search_case(k, rng, nq):
             scope = rng.choice([['L', 'X'], ['L', 'X'], ['L', 'X', 'M'], ['L'], ['L', 'M']])
     if not any(w[1] in scope for w in words):
         words[0][1] = scope[0]
-        words[0][0] = f'{scope[0]}-w0'
-        words[0][5] = [[f'{scope[0]}-w0-{t}', s.replace(s.split('-')[0], scope[0], 1)] for t, (_, s) in enumerate(words[0][5])]
+        words[0][0] = f'{scope[0]}|{scope[0]}-w0'
+        words[0][5] = [[f'{scope[0]}|{scope[0]}-w0-{t}', f'{scope[0]}|{scope[0]}-moved-' + s.split('|', 1)[1]]
+                       for t, (_, s) in enumerate(words[0][5])]
         for _, s in words[0][5]:
             synpos.setdefault(s, words[0][2])
     # a synset belongs to the lexicon of its id prefix; senses only reference own-lexicon synsets
